@@ -1011,7 +1011,9 @@ mutual
       | .index b i => do
         let bv ← eval p fuel b
         let iv ← eval p fuel i
-        liftR (indexRead bv iv)
+        let r ← liftR (indexRead bv iv)
+        -- the error's text renders the index: a collection holding an absent cannot be rendered
+        if r.isError && iv.isColl && hasAbsent iv then failM .fatal else pure r
       | .slice b lo hi => do
         let bv ← eval p fuel b
         let l ← eval p fuel lo
